@@ -148,3 +148,11 @@ def c16_grids(case):
     from ndvc.concrete import fd_derivative_grid_cases
     cnt, bad = fd_derivative_grid_cases(fd_derivative)
     return dict(reproduced=bool(bad), failing=bad[:3], cases=cnt, statement='fd_derivative exact on polynomials of degree 2*(n//2+m) on every strictly monotone grid')
+
+
+@reg('C15.exactw')
+def exactw(case):
+    import numdifftools.fornberg as fb
+    from ndvc.concrete import fd_weights_exact_cases
+    cnt, bad = fd_weights_exact_cases(fb)
+    return dict(reproduced=bool(bad), failing=bad[:3], cases=cnt, statement='fd_weights_all / fd_weights == exact rational Lagrange weights')
